@@ -51,7 +51,19 @@ SerModule(p, pl) ==
   IN [i \in 1..Len(top) |-> ds[top[i]]] \o (IF ina # <<>> THEN << NsN("a", [i \in 1..Len(ina) |-> ds[ina[i]]]) >> ELSE <<>>)
 SerModules == { SerModule(p, pl) : p \in Perms3, pl \in [1..3 -> 1..2] }
 
-Cases == CASE Family = "typedefs" -> TdModules [] Family = "serializable" -> SerModules
+\* Family "members": one class whose members come in every order - const and non-const properties, a `serialize`
+\* marker between ordinary methods, a static method (what one member is must not depend on its neighbours)
+DblTy == Ty(<<"double">>, <<>>, FALSE, "", TRUE)
+ConstInt == Ty(<<"int">>, <<>>, TRUE, "", TRUE)
+Perms4 == { p \in [1..4 -> 1..4] : \A i, j \in 1..4 : i # j => p[i] # p[j] }
+PropMembers == << Prop(ConstInt, "fixed", FALSE, ""), Prop(IntTy, "count", FALSE, ""), Prop(Ty(<<"double">>, <<>>, TRUE, "", TRUE), "scale", FALSE, ""), Prop(DblTy, "gain", FALSE, "") >>
+MethMembers == << Method("before", <<>>, Ret1(IntTy), <<>>, TRUE), Method("serialize", <<>>, Ret1(VoidTy), <<>>, TRUE),
+                  Method("after", <<>>, Ret1(VoidTy), <<Arg(IntTy, "n", FALSE, "")>>, FALSE), Static("Make", <<>>, Ret1(IntTy), <<>>) >>
+MemberModules ==
+  { << ClassN("Holder", <<>>, FALSE, FALSE, NoType, <<Ctor("Holder", <<>>, <<>>)>> \o [i \in 1..4 |-> PropMembers[p[i]]]),
+       ClassN("Worker", <<>>, FALSE, FALSE, NoType, <<Ctor("Worker", <<>>, <<>>)>> \o [i \in 1..4 |-> MethMembers[p[i]]]) >> : p \in Perms4 }
+
+Cases == CASE Family = "typedefs" -> TdModules [] Family = "serializable" -> SerModules [] Family = "members" -> MemberModules
 Init == done = FALSE
 Next == /\ ~done /\ done' = TRUE
         /\ \A cst \in Cases : PrintT(<<"CASE", ToJson([toks |-> RenderItems(cst), cst |-> cst, tree |-> AbsItems(cst)])>>)
